@@ -59,8 +59,10 @@ Definition pack_elem (cf : lconf) (c : cid) (name : fname) (e : elem) (s : slots
   | ERefPkt _ _ =>
       match slot_get s name with
       | Some (VPkt c' ps) =>
+          (* the nested object's scratch slots are mutated in place by python; that is not tracked here (it is
+             unobservable: Proofs/BitsProofs.bits_pack_all_det, and the element slots are rewritten before use) *)
           match rec_pack c' ps fr with
-          | QOk v fr' => KOk (slot_set s name v) fr'
+          | QOk _ fr' => KOk s fr'
           | QFail st => KFail st
           | QFuel => KFuel
           end
@@ -71,7 +73,7 @@ Definition pack_elem (cf : lconf) (c : cid) (name : fname) (e : elem) (s : slots
       | None => KExn AttributeError (cur fr)
       | Some (VPkt c' ps) =>
           match rec_pack c' ps fr with
-          | QOk v fr' => KOk (slot_set s name v) fr'
+          | QOk _ fr' => KOk s fr'
           | QFail st => KFail st
           | QFuel => KFuel
           end
